@@ -7,12 +7,14 @@
   evaluation is recorded with the trailing trace and stops the run.
 * simulate(): run one testbench coroutine under Amaranth's simulator.
 """
+import zlib
 from collections import Counter, deque
 
 from vmon import env  # noqa: F401
 
 from amaranth import Elaboratable, Module, Signal
 from amaranth.sim import Simulator
+from amaranth_soc.memory import MemoryMap
 
 
 class Stop(Exception):
@@ -118,6 +120,28 @@ class Mon:
 
 CURRENT_CASE_SEED = ""      # set by the worker before each case (deterministic per-case choices made here)
 CURRENT_TOP = None          # the Top being simulated (set by simulate())
+
+
+class SizedMap(MemoryMap):
+    """The container-style subclass a project writes to ask a map how much it holds: len() is the number of items added
+    directly, so a map nothing has been added to yet is falsy."""
+
+    def __len__(self):
+        return sum(1 for _ in self.resources()) + sum(1 for _ in self.windows())
+
+
+_MAPS_MADE = ["", 0]
+MAP_KINDS = Counter()
+
+
+def new_map(**kwargs):
+    """A memory map for an interface: a plain MemoryMap, in a fifth of the calls (chosen per case and call) a SizedMap."""
+    if _MAPS_MADE[0] != CURRENT_CASE_SEED:
+        _MAPS_MADE[:] = [CURRENT_CASE_SEED, 0]
+    _MAPS_MADE[1] += 1
+    sized = zlib.crc32(f"map:{CURRENT_CASE_SEED}:{_MAPS_MADE[1]}".encode()) % 5 == 0
+    MAP_KINDS["sized" if sized else "plain"] += 1
+    return (SizedMap if sized else MemoryMap)(**kwargs)
 
 
 class PlatformStandIn:
